@@ -13,9 +13,9 @@ import os
 from vlib import MachineryError
 
 TOK_QUICK = [("T1", 4, False), ("T1", 3, True), ("T2", 4, False), ("T3", 4, False), ("T4", 4, False), ("T5", 3, False), ("T6", 4, False),
-             ("T7", 7, False), ("T8", 4, False), ("T9", 3, True), ("T10", 4, False), ("T11", 6, False)]
+             ("T7", 7, False), ("T8", 4, False), ("T9", 3, True), ("T10", 4, False), ("T11", 6, False), ("T13", 5, False)]
 TOK_THOROUGH = [("T1", 4, False), ("T1", 4, True), ("T2", 5, False), ("T3", 5, False), ("T4", 5, False), ("T5", 4, False), ("T6", 6, False),
-                ("T7", 9, False), ("T8", 5, False), ("T9", 3, True), ("T9", 3, False), ("T10", 5, False), ("T11", 7, False)]
+                ("T7", 9, False), ("T8", 5, False), ("T9", 3, True), ("T9", 3, False), ("T10", 5, False), ("T11", 7, False), ("T13", 6, False)]
 PARSE_QUICK = [("stylesheet", "full", 4), ("rules", "full", 4), ("decls", "full", 4), ("onedecl", "full", 4), ("blocks", "full", 4),
                ("decls", "imp", 5), ("onedecl", "imp", 5), ("blocks", "imp", 5)]
 PARSE_THOROUGH = [("stylesheet", "full", 5), ("rules", "full", 5), ("decls", "full", 5), ("onedecl", "full", 5), ("blocks", "full", 5),
